@@ -99,8 +99,10 @@ def _cases(tier, rng):
                                      max_rank=2 if tier == "quick" or q % 3 else 3)
         storage = ("dict", "file_array", "dict", "shared_memory_dict")[q % 4] if tier != "quick" or q % 8 else "shared_memory_dict"
         yield {"prog": prog, "storage": storage}
-    for q in range(60 if tier == "quick" else 600):  # block-reading consumers of outputs with interior internal axes
-        yield {"prog": progs.gen_internal_consumer_program(rng), "storage": ("dict", "file_array")[q % 2]}
+    for rep in range(1 if tier == "quick" else 5):  # block-reading consumers of outputs with interior internal axes
+        for prog in progs.all_internal_consumer_programs(rng):
+            for st_ in ("dict", "file_array"):
+                yield {"prog": prog, "storage": st_}
 
 
 def _check(case):
